@@ -308,6 +308,24 @@ func (c *nonnegCtx) nonneg(v ssa.Value, at ssa.Instruction, min int64) (bool, st
 				return true, "len/cap"
 			}
 		}
+		// a private getter (`func (s *socket) writeQLen() int { lock; v := s.sendQLen; unlock; return v }`):
+		// every value it can return must satisfy the bound
+		if sc := x.Call.StaticCallee(); sc != nil && sc.Blocks != nil && c.p.moduleFunc(sc) && sc.Signature.Results().Len() == 1 {
+			n := 0
+			for _, b := range sc.Blocks {
+				ret, isRet := b.Instrs[len(b.Instrs)-1].(*ssa.Return)
+				if !isRet || (sc.Recover != nil && b == sc.Recover) {
+					continue
+				}
+				n++
+				if ok, why := c.nonneg(resolveSpill(ret.Results[0], ret), nil, min); !ok {
+					return false, "value returned by " + c.p.FuncName(sc) + ": " + why
+				}
+			}
+			if n > 0 {
+				return true, "every value returned by " + c.p.FuncName(sc)
+			}
+		}
 	case *ssa.Convert:
 		return c.nonneg(x.X, at, min)
 	case *ssa.ChangeType:
